@@ -333,6 +333,12 @@ def r20b(rep, prog):
             atoms = []
             for (c, pol) in rel:
                 f = ex.formula(c, lambda leaf: _atom(leaf))
+                if f is None and _compares_with_hardware(kfn if kfn.cfg is not None and any(x is c for x in kfn.walk()) else main, c):
+                    # the requested value is compared with the machine's thread count and the knob is only called for one outcome: for the
+                    # other outcome a requested limit is not applied at all
+                    problems.append('the knob call is conditioned on `%s` (line %d), a comparison of the requested value with hardware_concurrency(): for that value of --cores '
+                                    'no limit is installed (TBB\'s default is the process affinity mask, not the number of hardware threads)' % (c.text(60), c.line))
+                    continue
                 if f is None:
                     und.append('condition `%s` at line %d is not over option atoms' % (c.text(80), c.line))
                     continue
@@ -622,6 +628,25 @@ def store_order(rep, prog, main, rule='R20d'):
     return 1
 
 
+def _compares_with_hardware(fn, cond):
+    """does the condition compare something with hardware_concurrency() (directly or through a local initialised from it)"""
+    def from_hw(e, depth=0):
+        s_ = e.strip_all()
+        if any(x.k in ex.CALL_KINDS and x.callee and x.callee['name'] in ('hardware_concurrency', 'default_concurrency', 'max_concurrency')
+               for x in [s_] + list(s_.walk())):
+            return True
+        v = ex.var_of(s_)
+        if v is not None and depth < 3:
+            defs = ex.assignments_to(fn, v)
+            return bool(defs) and all(rhs is not None and from_hw(rhs, depth + 1) for (_d, rhs) in defs)
+        return False
+    for x in [cond.strip_all()] + list(cond.walk()):
+        if x.k == 'BinaryOperator' and x.op in ('==', '!=', '<', '>', '<=', '>=') and len(x.c) == 2:
+            if from_hw(x.c[0]) != from_hw(x.c[1]):
+                return True
+    return False
+
+
 def _atom(leaf):
     a = common.option_atom(leaf)
     if a is not None:
@@ -656,7 +681,35 @@ def _atom(leaf):
     return None
 
 
+UNLIMITED_SPAWN = ('enqueue', 'async', 'pthread_create')
+UNLIMITED_TYPES = ('std::thread', 'std::jthread', 'boost::thread')
+
+
+def r20e(rep, prog):
+    """the library starts work only through the interfaces that max_allowed_parallelism governs (parallel_for / parallel_reduce / ... in
+    the caller's arena): `task_arena::enqueue` / `this_task_arena::enqueue` makes the scheduler wake a worker for the enqueued task even when
+    the limit is 1, and std::async / std::thread are not TBB threads at all - either way more threads run library tasks than the knob allows"""
+    what = 'library code starts no thread / fire-and-forget task outside the limit of set_global_tbb_concurrency'
+    n = 0
+    for fn in prog.functions:
+        if fn.implicit or fn.body is None or not (fn.file.startswith(env.REPO + '/include') or fn.file.startswith(env.WITNESS + '/positive')):
+            continue
+        for c in fn.walk():
+            if c.k in ex.CALL_KINDS and c.callee:
+                g = c.callee['g']
+                if (c.callee['name'] in UNLIMITED_SPAWN and (g.startswith('tbb::') or g.startswith('oneapi::tbb') or g.startswith('std::') or g == 'pthread_create')):
+                    n += 1
+                    rep.violation('R20e', c, fn, what, '`%s` (%s) hands work to a thread that max_allowed_parallelism does not count: with the knob set to 1 two threads run '
+                                  'library tasks at once' % (c.text(40), g), key='R20e|%s|%s' % (fn.g, c.callee['name']))
+            if c.k in ex.CTOR_KINDS and c.callee and (c.callee.get('rec') or '') in UNLIMITED_TYPES and len(c.c) >= 1:
+                n += 1
+                rep.violation('R20e', c, fn, what, 'a `%s` is started by the library: it is not governed by the TBB limit' % c.callee.get('rec'),
+                              key='R20e|%s|thread' % fn.g)
+    return n
+
+
 def run(rep, tier):
+    rep.rule('R20e', 'no unlimited thread / enqueue in the library', floor=0)
     rep.rule('R20a', 'the TBB control object outlives set_global_tbb_concurrency and is re-created on every call', floor=1)
     rep.rule('R20b', 'demos call the knob whenever a parallel algorithm is selected, independent of unrelated flags', floor=2)
     rep.rule('R20c', 'the knob receives the value of --cores', floor=2)
@@ -669,6 +722,7 @@ def run(rep, tier):
     for tu, prog in progs.items():
         knob_seen += r20a(rep, prog)
         mains_seen += r20b(rep, prog)
+        r20e(rep, prog)
         for m_ in common.mains(prog):
             if any(s_.value and re.match(r'^cores(,|$)', s_.value) for s_ in ex.string_literals(m_.body)):
                 store_order(rep, prog, m_)
@@ -680,6 +734,8 @@ def run(rep, tier):
     prep = type(rep)(rep.prop, rep.tier)
     r20a(prep, pp)
     r20b(prep, pp)
+    r20e(prep, pp)
+    rep.positive('R20e', 'witness/positive/c20_local_control.cc', any(i.status == 'violation' and i.rule == 'R20e' for i in prep.instances.values()))
     for m_ in common.mains(pp):
         store_order(prep, pp, m_)
     rep.positive('R20d', 'witness/positive/c20_local_control.cc', any(i.status == 'violation' and i.rule == 'R20d' for i in prep.instances.values()))
